@@ -122,6 +122,8 @@ def cases(draw, index):
                                             "RExp(-|nu|*z)", "LExp(-|nu|*z)"]))
             continue
         pars[o] = draw(st.floats(0.01, 1000.0).map(lambda v: round(v, 6)))
+        if dict(pairs).get(o) in ("scale", "background") and draw(st.integers(0, 3)) == 0:
+            pars[o] = 0.0       # a saved scale or background of exactly zero is a value, not "absent"
         if ":" in o or o.startswith(("M0_", "M_theta", "M_phi", "up_")):
             continue
         for a in draw(st.lists(st.sampled_from(ATTRS), unique=True, max_size=4)):
